@@ -1,7 +1,10 @@
 package c12q
 
 import (
+	"runtime"
+	"strings"
 	"sync"
+	"sync/atomic"
 	"time"
 )
 
@@ -13,6 +16,14 @@ type Clock struct {
 	now     time.Time
 	timers  []*timer
 	created int64
+
+	// a hook-free yield point: the next Now() called from a goroutine whose stack mentions every
+	// string of holdMatch blocks until ReleaseNow (code that reads the clock inside a critical
+	// section can so be held inside it)
+	holdArmed atomic.Bool
+	holdHit   atomic.Bool
+	holdMatch []string
+	holdCh    chan struct{}
 }
 
 type timer struct {
@@ -23,7 +34,47 @@ type timer struct {
 
 func NewClock(start time.Time) *Clock { return &Clock{now: start} }
 
-func (c *Clock) Now() time.Time                  { c.mu.Lock(); defer c.mu.Unlock(); return c.now }
+func (c *Clock) Now() time.Time {
+	if c.holdArmed.Load() {
+		c.maybeHold()
+	}
+	c.mu.Lock()
+	defer c.mu.Unlock()
+	return c.now
+}
+
+func (c *Clock) maybeHold() {
+	buf := make([]byte, 16384)
+	st := string(buf[:runtime.Stack(buf, false)])
+	for _, m := range c.holdMatch {
+		if !strings.Contains(st, m) {
+			return
+		}
+	}
+	if !c.holdArmed.CompareAndSwap(true, false) {
+		return
+	}
+	ch := c.holdCh
+	c.holdHit.Store(true)
+	<-ch
+}
+
+// HoldNow arms the yield point; Held reports whether a goroutine is blocked in it; ReleaseNow disarms it
+// and lets a blocked goroutine go on.
+func (c *Clock) HoldNow(match ...string) {
+	c.holdMatch, c.holdCh = match, make(chan struct{})
+	c.holdHit.Store(false)
+	c.holdArmed.Store(true)
+}
+func (c *Clock) Held() bool { return c.holdHit.Load() }
+func (c *Clock) ReleaseNow() {
+	c.holdArmed.Store(false)
+	if c.holdCh != nil {
+		close(c.holdCh)
+		c.holdCh = nil
+	}
+	c.holdHit.Store(false)
+}
 func (c *Clock) Since(t time.Time) time.Duration { return c.Now().Sub(t) }
 func (c *Clock) Until(t time.Time) time.Duration { return t.Sub(c.Now()) }
 func (c *Clock) Sleep(d time.Duration)           { <-c.After(d) }
